@@ -369,10 +369,12 @@ func (f *Frame) intBin(st *State, in ssa.Instruction, op token.Token, x, y Term,
 	case token.GEQ:
 		return scalar(ILe(y, x), rt)
 	case token.SHL:
+		y = c.known(y)
 		if y.C != nil && y.C.IsInt64() && y.C.Int64() < 64 {
 			return chk(IMul(x, IntLit(pow2(int(y.C.Int64())))))
 		}
 	case token.SHR:
+		y = c.known(y)
 		if y.C != nil && y.C.IsInt64() && y.C.Int64() < 64 && !signed {
 			return scalar(sexp(SInt, "div", x, IntLit(pow2(int(y.C.Int64())))), rt)
 		}
